@@ -212,6 +212,7 @@ type Leaf struct {
 	Path string // e.g. ".ref" or ".X.Y"
 	Sort string
 	Ty   types.Type // type of the leaf if it is a Go scalar (for range assumptions)
+	Ptr  bool       // the leaf holds a pointer to a struct object (an object id)
 }
 
 func sortOfKind(k Kind) string {
@@ -248,17 +249,17 @@ func leavesOfType(t types.Type) []Leaf {
 			}
 		case *types.Slice:
 			for _, c := range []string{"ref", "off", "len", "cap"} {
-				out = append(out, Leaf{path + "." + c, lifted("Int", lift), nil})
+				out = append(out, Leaf{path + "." + c, lifted("Int", lift), nil, false})
 			}
 		case *types.Interface:
-			out = append(out, Leaf{path + ".tag", lifted("Int", lift), nil})
-			out = append(out, Leaf{path + ".pay", lifted("Int", lift), nil})
+			out = append(out, Leaf{path + ".tag", lifted("Int", lift), nil, false})
+			out = append(out, Leaf{path + ".pay", lifted("Int", lift), nil, false})
 		case *types.Pointer:
 			if isStructPtr(t) {
-				out = append(out, Leaf{path, lifted("Int", lift), nil})
+				out = append(out, Leaf{path, lifted("Int", lift), nil, true})
 			} else {
-				out = append(out, Leaf{path + ".ref", lifted("Int", lift), nil})
-				out = append(out, Leaf{path + ".idx", lifted("Int", lift), nil})
+				out = append(out, Leaf{path + ".ref", lifted("Int", lift), nil, false})
+				out = append(out, Leaf{path + ".idx", lifted("Int", lift), nil, false})
 			}
 		case *types.Array:
 			walk(u.Elem(), path, lift+1)
@@ -271,7 +272,7 @@ func leavesOfType(t types.Type) []Leaf {
 			if lift == 0 {
 				lt = t
 			}
-			out = append(out, Leaf{path, lifted(sortOfKind(kindOf(t)), lift), lt})
+			out = append(out, Leaf{path, lifted(sortOfKind(kindOf(t)), lift), lt, false})
 		}
 	}
 	walk(t, "", 0)
@@ -299,21 +300,21 @@ func build(t types.Type, gen func(l Leaf) string) *Val {
 		case *types.Slice:
 			v := &Val{K: KSlice, Ty: t}
 			for _, c := range []string{"ref", "off", "len", "cap"} {
-				v.Fs = append(v.Fs, vInt(gen(Leaf{path + "." + c, lifted("Int", lift), nil}), nil))
+				v.Fs = append(v.Fs, vInt(gen(Leaf{path + "." + c, lifted("Int", lift), nil, false}), nil))
 			}
 			return v
 		case *types.Interface:
 			v := &Val{K: KIface, Ty: t}
-			v.Fs = append(v.Fs, vInt(gen(Leaf{path + ".tag", lifted("Int", lift), nil}), nil))
-			v.Fs = append(v.Fs, vInt(gen(Leaf{path + ".pay", lifted("Int", lift), nil}), nil))
+			v.Fs = append(v.Fs, vInt(gen(Leaf{path + ".tag", lifted("Int", lift), nil, false}), nil))
+			v.Fs = append(v.Fs, vInt(gen(Leaf{path + ".pay", lifted("Int", lift), nil, false}), nil))
 			return v
 		case *types.Pointer:
 			if isStructPtr(t) {
-				return &Val{K: KPtr, Ty: t, T: gen(Leaf{path, lifted("Int", lift), nil})}
+				return &Val{K: KPtr, Ty: t, T: gen(Leaf{path, lifted("Int", lift), nil, true})}
 			}
 			v := &Val{K: KPtr, Ty: t}
-			v.Fs = append(v.Fs, vInt(gen(Leaf{path + ".ref", lifted("Int", lift), nil}), nil))
-			v.Fs = append(v.Fs, vInt(gen(Leaf{path + ".idx", lifted("Int", lift), nil}), nil))
+			v.Fs = append(v.Fs, vInt(gen(Leaf{path + ".ref", lifted("Int", lift), nil, false}), nil))
+			v.Fs = append(v.Fs, vInt(gen(Leaf{path + ".idx", lifted("Int", lift), nil, false}), nil))
 			return v
 		case *types.Array:
 			return &Val{K: KArr, Ty: t, Fs: []*Val{walk(u.Elem(), path, lift+1)}}
@@ -329,7 +330,7 @@ func build(t types.Type, gen func(l Leaf) string) *Val {
 			if lift == 0 {
 				lt = t
 			}
-			return &Val{K: k, Ty: t, T: gen(Leaf{path, lifted(sortOfKind(k), lift), lt})}
+			return &Val{K: k, Ty: t, T: gen(Leaf{path, lifted(sortOfKind(k), lift), lt, false})}
 		}
 	}
 	return walk(t, "", 0)
